@@ -55,6 +55,23 @@ NAME_EXCEPTIONS = {
 }
 
 
+def distributive_rules(ctx):
+    model = ctx.model
+    # ---------------- ALG.distributive: rewriting a filter (A&B)|(A&C) -> A&(B|C)
+    mod_ex = model.module(EX)
+    rc = mod_ex.func("_replace_common_or_components")
+    apps = find("replacements.append(M_c)", rc)
+    ok = len(apps) == 1
+    if ok:
+        facts = [(unparse(e), pol) for e, pol in cfg_of(rc).facts(apps[0][0])]
+        ok = ("all((c in comp for comp in and_components))", True) in facts
+    ctx.ob("ALG.distributive.common-to-all", rc, "a conjunct is pulled out of the disjunction only if it occurs in ALL disjuncts", ok, "" if ok else "a conjunct that is missing from one disjunct is factored out: (A&B)|(A&C)|D becomes A&(B|C|D) and rows matching only D are dropped")
+    ok = bool(find("outer_component = outer_component & mapping[r]", rc)) and bool(find("or_component = or_component | c", rc)) and any(unparse(r.value) == "outer_component & or_component" for r in returns(rc))
+    ctx.ob("ALG.distributive.shape", rc, "result = (conjunction of the common conjuncts) & (disjunction of the remainders)", ok)
+    ok = bool(find("keep_components = [c for c in comp if c not in replacements]", rc)) and bool(find("result_component = result_component & comp[c]", rc))
+    ctx.ob("ALG.distributive.remainder", rc, "each disjunct keeps exactly its non-common conjuncts, and-ed together", ok)
+
+
 def check(ctx):
     model = ctx.model
     em = T.exprmodel(ctx)
@@ -189,19 +206,7 @@ def check(ctx):
     ctx.count("elemwise_method_bindings", n_n)
     ctx.floor("elemwise_method_bindings", 40)
     T.argpos(ctx, lambda p: p in (EX, COL), "c36", floor=100)
-    # ---------------- ALG.distributive: rewriting a filter (A&B)|(A&C) -> A&(B|C)
-    mod_ex = model.module(EX)
-    rc = mod_ex.func("_replace_common_or_components")
-    apps = find("replacements.append(M_c)", rc)
-    ok = len(apps) == 1
-    if ok:
-        facts = [(unparse(e), pol) for e, pol in cfg_of(rc).facts(apps[0][0])]
-        ok = ("all((c in comp for comp in and_components))", True) in facts
-    ctx.ob("ALG.distributive.common-to-all", rc, "a conjunct is pulled out of the disjunction only if it occurs in ALL disjuncts", ok, "" if ok else "a conjunct that is missing from one disjunct is factored out: (A&B)|(A&C)|D becomes A&(B|C|D) and rows matching only D are dropped")
-    ok = bool(find("outer_component = outer_component & mapping[r]", rc)) and bool(find("or_component = or_component | c", rc)) and any(unparse(r.value) == "outer_component & or_component" for r in returns(rc))
-    ctx.ob("ALG.distributive.shape", rc, "result = (conjunction of the common conjuncts) & (disjunction of the remainders)", ok)
-    ok = bool(find("keep_components = [c for c in comp if c not in replacements]", rc)) and bool(find("result_component = result_component & comp[c]", rc))
-    ctx.ob("ALG.distributive.remainder", rc, "each disjunct keeps exactly its non-common conjuncts, and-ed together", ok)
+    distributive_rules(ctx)
     # ---------------- CALLCONV: how Blockwise classes call the pandas method they wrap
     # operation = M.<method>; positional arguments = _parameters (after the frame) that are not in
     # _keyword_only, in that order; keywords = _keyword_only (Blockwise._args / _kwargs).  The pandas
@@ -256,6 +261,9 @@ def check(ctx):
     conds = [n for n in ast.walk(mal) if isinstance(n, ast.Call) and call_name(n) == "all" and "divisions == df.divisions" in unparse(n)]
     ok = len(conds) == 1 and "df.known_divisions" in unparse(conds[0])
     ctx.ob("DOM.align.known-divisions", mal, "frames are combined partition by partition without alignment only if their divisions are equal AND known", ok, "" if ok else "two frames with unknown divisions (None == None) are treated as aligned: rows are paired by position, not by index")
+    from .C13 import no_operand_mutation
+
+    no_operand_mutation(ctx)
 
 
 VARIANTS = [
